@@ -156,14 +156,26 @@ def vm_crosscheck(cases, results, tag, limit=40):
     lines.append("Eval vm_compute in all_ok.")
     d = os.path.join(BUILD, "vm")
     os.makedirs(d, exist_ok=True)
-    path = os.path.join(d, "cases_%s.v" % tag)
+    path = os.path.join(d, "cases_%s_%d.v" % (tag, os.getpid()))     # (per process: concurrent runs must not share the file)
     with open(path, "w") as fh:
         fh.write("\n".join(lines) + "\n")
-    p = subprocess.run(
-        ["timeout", "600", "coqc", "-Q", os.path.join(COQ, "theories"), "Cox", path],
-        capture_output=True, text=True, cwd=d,
-    )
+    for attempt in (0, 1):
+        p = subprocess.run(
+            ["timeout", "600", "coqc", "-Q", os.path.join(COQ, "theories"), "Cox", path],
+            capture_output=True, text=True, cwd=d,
+        )
+        # a concurrent (re)build of the development can leave Entry.vo momentarily inconsistent with its dependencies: that is an
+        # environment failure, not a disagreement - wait for the build lock and evaluate once more
+        if p.returncode != 0 and attempt == 0 and ("inconsistent assumptions" in p.stderr or "Cannot find" in p.stderr or "not a valid" in p.stderr):
+            ensure_build()
+            continue
+        break
     ok = p.returncode == 0 and "= true" in p.stdout
+    for ext in (".v", ".vo", ".glob", ".vok", ".vos"):
+        try:
+            os.remove(path[:-2] + ext)
+        except OSError:
+            pass
     return len(sample), ok
 
 
